@@ -40,20 +40,20 @@ type Server struct {
 	mon     []string
 
 	// request-stream monitor state
-	tagsOut map[uint16]uint8     // outstanding tags -> T type
-	fids    map[uint64]string    // fids the server has bound -> how
-	pendBind map[uint16]uint64   // tag -> newfid of an outstanding binding request
+	tagsOut    map[uint16]uint8  // outstanding tags -> T type
+	fids       map[uint64]string // fids the server has bound -> how
+	pendBind   map[uint16]uint64 // tag -> newfid of an outstanding binding request
 	pendUnbind map[uint16]uint64 // tag -> fid of outstanding Tclunk/Tremove
-	Msize   uint32               // announced msize (set by scenario when it sends Rversion)
-	Version uint32
+	Msize      uint32            // announced msize (set by scenario when it sends Rversion)
+	Version    uint32
 
 	// Handler, if set, is called in the reader goroutine for each request.
 	Handler func(s *Server, r *Req)
 
-	wq       chan []byte
-	wpending int64
-	werr     error
-	wdone    chan struct{}
+	wq         chan []byte
+	wpending   int64
+	werr       error
+	wdone      chan struct{}
 	ReaderDone chan struct{}
 	FailWrites int32 // when set, the client's writes fail (half-broken connection)
 	quit       chan struct{}
